@@ -488,6 +488,11 @@ func (in *Interp) tryMerge(fr *Frame, x *ssa.If, c *Term) bool {
 	rT := runSide(B.Succs[0], c)
 	fr.prev = savedPrev
 	if !rT.ok {
+		// definitional constraints stay valid (fresh-variable definitions may be
+		// cached, e.g. in fpBits) even though the region is abandoned
+		for _, d := range rT.defs {
+			in.define(d)
+		}
 		in.cellID = base
 		debugf("merge abort T in %s b%d: %s", fr.fn.Name(), B.Index, rT.why)
 		return false
@@ -495,6 +500,12 @@ func (in *Interp) tryMerge(fr *Frame, x *ssa.If, c *Term) bool {
 	rF := runSide(B.Succs[1], Not(c))
 	fr.prev = savedPrev
 	if !rF.ok {
+		for _, d := range rT.defs {
+			in.define(d)
+		}
+		for _, d := range rF.defs {
+			in.define(d)
+		}
 		in.cellID = base
 		debugf("merge abort F in %s b%d: %s", fr.fn.Name(), B.Index, rF.why)
 		return false
